@@ -633,7 +633,7 @@ pub fn generate(seed: u64, prop: &str, _thorough: bool) -> BitsTrace {
         } else if r < w_inspect + w_bad {
             let cb = rng.usize(n_cb);
             match &codebooks[cb] {
-                CodebookSpec::HuffInt(w) => ops.push(BitOp::BadSym { cb, sym: w.len() as u64 + rng.below(3) }),
+                CodebookSpec::HuffInt(w) => ops.push(BitOp::BadSym { cb, sym: match rng.below(5) { 0 => (1u64 << 63) | rng.below(w.len() as u64 + 1), 1 => u64::MAX - rng.below(3), 2 => (1u64 << (32 + rng.below(31))) + rng.below(w.len() as u64 + 1), _ => w.len() as u64 + rng.below(3) } }),
                 CodebookSpec::HuffFloat(w) => ops.push(BitOp::BadSym { cb, sym: w.len() as u64 + rng.below(1000) }),
                 _ => {}
             }
